@@ -126,13 +126,27 @@ theorem savable_writes_class_name_partial :
 theorem fields_saved_superset_loaded :
     ∀ c ∈ Gen.Corr.all, ∀ f ∈ Gen.loaded c, f ∈ Gen.saved c := by decide
 
-/-- **Attribute provenance of the savable corrections** (AST of the classes): every attribute of `self` that
-`correct_array` reads (transitively through the methods it calls) is stored by `load` (transitively: e.g.
-`_init_from_config`) or by the constructor that `read_correction` runs without arguments — no state the output
-depends on is left unset or stale by the generic reader. (Syntactic: branches are not distinguished.) -/
+/-- attributes `correct_array` reads that `load` does not restore although the constructor lets the user choose them —
+each with its reason. They only steer WHERE the memoised sampling grid is kept (file cache on / off, its path); the grid
+itself is a function of `config` and the input shape (see `curv_output_independent_of_cache`), so the output does not
+depend on them. -/
+def restoreExceptions : List (Gen.Corr × Gen.CAttr) :=
+  [(.CurvatureCorrection, .a_use_cache), (.CurvatureCorrection, .a_cache_path)]
+
+/-- **Attribute provenance of the savable corrections** (AST of the classes, syntactic): every attribute of `self`
+that `correct_array` reads (transitively through the methods it calls) is
+* stored by `load` (transitively, e.g. `_init_from_config`), or
+* a constant of the constructor: stored by `__init__` and NOT derived from any constructor parameter / keyword (directly,
+  through another such attribute or a local, or under a condition on them) — the no-argument constructor of the generic
+  reader then sets the same value the original had (`translation_estimator` of `DriftCorrection`, the empty `cache`), or
+* one of the explicitly listed exceptions.
+A constructor-configurable attribute that `load` forgets is NOT accepted (this is what failed for
+`interpolation_order` before the fix). -/
 theorem correct_reads_are_restored :
     ∀ c ∈ Gen.Corr.all, Gen.implementsSave c = true → Gen.writesClassName c = true →
-      ∀ a ∈ Gen.correctReads c, a ∈ Gen.loadStores c ∨ a ∈ Gen.initStores c := by decide
+      ∀ a ∈ Gen.correctReads c,
+        a ∈ Gen.loadStores c ∨ (a ∈ Gen.initStores c ∧ a ∉ Gen.ctorConfigurable c) ∨ (c, a) ∈ restoreExceptions := by
+  decide
 
 /-- and `load` restores something `correct_array` uses, for each of them (the saved file is not decorative) -/
 theorem load_restores_used_state :
@@ -157,6 +171,55 @@ theorem reload_equiv {V : Type} (S : CSem V) :
     | some r =>
       have h := inv r rfl
       simp [DriftState.save, DriftFile.load, h]
+
+/-- **The persisted grid cache does not change the output**: the cache of a `CurvatureCorrection` always holds the grid
+of the object's own configuration (`CacheOK`: true for a fresh object, preserved by every application and by
+save → load), and then the grid used for an input of ANY shape is the one computed from `config` — so the reloaded
+correction samples with the same grid as the original, also for inputs of another shape than the cached one. -/
+theorem curv_output_independent_of_cache {V : Type} [DecidableEq V] (S : CurvSem V) (s : CurvStateC V) (sh : V)
+    (ok : s.CacheOK S) :
+    (s.apply S sh).1 = S.grid s.config sh ∧ (s.apply S sh).2.CacheOK S ∧ (s.apply S sh).2.config = s.config ∧
+    (s.save.load S).CacheOK S ∧ ((s.save.load S).apply S sh).1 = (s.apply S sh).1 := by
+  have happly : ∀ t : CurvStateC V, t.CacheOK S → (t.apply S sh).1 = S.grid t.config sh := by
+    intro t okt
+    unfold CurvStateC.apply
+    cases hc : t.cache with
+    | none => rfl
+    | some p =>
+      obtain ⟨sh0, g⟩ := p
+      by_cases e : sh0 = sh
+      · simp [e]; subst e; exact okt sh0 g hc
+      · simp [e]
+  have hload : (s.save.load S).CacheOK S := by
+    intro sh' g' h'; exact ok sh' g' h'
+  refine ⟨happly s ok, ?_, ?_, hload, ?_⟩
+  · unfold CurvStateC.apply
+    cases hc : s.cache with
+    | none => intro sh' g' h'; simp at h'; obtain ⟨rfl, rfl⟩ := h'; rfl
+    | some p =>
+      obtain ⟨sh0, g⟩ := p
+      by_cases e : sh0 = sh
+      · simp [e]; subst e; exact ok
+      · simp only [e, if_false]
+        intro sh' g' h'; simp at h'; obtain ⟨rfl, rfl⟩ := h'; rfl
+  · unfold CurvStateC.apply
+    cases hc : s.cache with
+    | none => rfl
+    | some p =>
+      obtain ⟨sh0, g⟩ := p
+      by_cases e : sh0 = sh <;> simp [e]
+  · rw [happly _ hload, happly s ok]; rfl
+
+/-- a `load` that adapts the configuration again after restoring the cache leaves a cache that belongs to ANOTHER
+configuration: inputs of the cached shape are sampled with the old grid, others with the new one (witness) -/
+example : let S : CurvSem Nat := { one := 1, grid := fun cfg sh => 10 * cfg + sh }
+    let s : CurvStateC Nat := { config := 2, interpolationOrder := 1, cache := some (3, 23) }
+    s.CacheOK S ∧ ¬ (s.save.loadAdapting S (· * 2)).CacheOK S := by
+  refine ⟨?_, ?_⟩
+  · intro sh g h; simp at h; obtain ⟨rfl, rfl⟩ := h; rfl
+  · intro h
+    have := h 3 23 rfl
+    simp [CurvFileC.loadAdapting, CurvStateC.save] at this
 
 /-- the interpolation order is part of that state: the code before the fix did not store it, and a correction built with
 another order than the constructor's default came back different -/
